@@ -76,17 +76,14 @@ theorem greedy_on_every_reachable_pool (U : Bytes → Tx) (cfg : Config) (ops : 
 /-! ### tie by translation: the source's own leaf logic (regenerated into SV/Generated/Funcs.lean on every run) IS the model's -/
 theorem source_comparator_is_the_models (a b : Tx) :
     moreValuable Variant.current a b =
-      Gen.moreValuable (GenProofs.sat64 (a.ppu Variant.current)) (GenProofs.sat64 (b.ppu Variant.current))
-        a.gasLimit b.gasLimit a.hash b.hash (a.ppu Variant.current) (b.ppu Variant.current) := GenProofs.moreValuable_eq a b
+      Gen.moreValuable (wrappedTx_PricePerUnit := (GenProofs.sat64 (a.ppu Variant.current))) (otherTransaction_PricePerUnit := (GenProofs.sat64 (b.ppu Variant.current))) (wrappedTx_Tx_GetGasLimit := a.gasLimit) (otherTransaction_Tx_GetGasLimit := b.gasLimit) (wrappedTx_TxHash := a.hash) (otherTransaction_TxHash := b.hash) (wrappedTx_computeExactPricePerUnit := (a.ppu Variant.current)) (otherTransaction_computeExactPricePerUnit := (b.ppu Variant.current)) := GenProofs.moreValuable_eq a b
 theorem source_comparator_reads (_ : Unit) :
-    Gen.moreValuable_leaves = ["wrappedTx.PricePerUnit : Int", "otherTransaction.PricePerUnit : Int", "wrappedTx.Tx.GetGasLimit() : Int",
-      "otherTransaction.Tx.GetGasLimit() : Int", "wrappedTx.TxHash : Bytes", "otherTransaction.TxHash : Bytes",
-      "wrappedTx.computeExactPricePerUnit() : Int", "otherTransaction.computeExactPricePerUnit() : Int"] := GenProofs.moreValuable_leaves
+    Gen.moreValuable_leaves = ["otherTransaction.PricePerUnit : Int", "otherTransaction.Tx.GetGasLimit() : Int", "otherTransaction.TxHash : Bytes", "otherTransaction.computeExactPricePerUnit() : Int", "wrappedTx.PricePerUnit : Int", "wrappedTx.Tx.GetGasLimit() : Int", "wrappedTx.TxHash : Bytes", "wrappedTx.computeExactPricePerUnit() : Int"] := GenProofs.moreValuable_leaves
 
 /-- the price per gas unit stored at insertion is computed by the source as ⌊fee / gasLimit⌋ saturated at 2^64 − 1, for EVERY
     fee (the math/big path included; a reintroduced `fee.Uint64()` truncation would change the translated definition and
     break this theorem) -/
 theorem source_price_per_unit_is_floor_saturated (t : Tx) (hg : t.gasLimit ≠ 0) :
-    Gen.pricePerUnit t.fee t.gasLimit = GenProofs.sat64 (t.ppu Variant.current) := GenProofs.pricePerUnit_eq t hg
+    Gen.pricePerUnit (fee := t.fee) (gasLimit := t.gasLimit) = GenProofs.sat64 (t.ppu Variant.current) := GenProofs.pricePerUnit_eq t hg
 
 end SV.Props.C03
